@@ -34,7 +34,7 @@ def ty_range(t):
 
 # ============================================================================ state
 class St:
-    __slots__ = ("env", "cons", "lo", "hi", "dead", "eng")
+    __slots__ = ("env", "cons", "lo", "hi", "dead", "eng", "mod")
 
     def __init__(self, eng):
         self.eng = eng
@@ -42,6 +42,7 @@ class St:
         self.cons = set()
         self.lo = {}
         self.hi = {}
+        self.mod = {}     # congruences of loop counters: sym -> (g, r), the symbol's value is r modulo g (g >= 2)
         self.dead = False
 
     def copy(self):
@@ -50,6 +51,7 @@ class St:
         s.cons = set(self.cons)
         s.lo = dict(self.lo)
         s.hi = dict(self.hi)
+        s.mod = dict(self.mod)
         s.dead = self.dead
         return s
 
@@ -72,14 +74,19 @@ class St:
             return
         if len(lin.t) == 1:
             (s, k), c = lin.t[0], lin.c
+            m = self.mod.get(s)
             if k > 0:
                 # s <= floor(-c / k)
                 b = (-c) // k
+                if m is not None:
+                    b -= (b - m[1]) % m[0]     # the largest value <= b in the symbol's residue class
                 if b < self.ub(s):
                     self.hi[s] = b
             else:
                 # s >= ceil(c / -k)
                 b = -((-c) // (-k))
+                if m is not None:
+                    b += (m[1] - b) % m[0]     # the smallest value >= b in the residue class
                 if b > self.lb(s):
                     self.lo[s] = b
             if self.lb(s) > self.ub(s):
@@ -1128,6 +1135,43 @@ class Engine:
                 out.lo[s_] = lo
             if hi < self.syms[s_][2]:
                 out.hi[s_] = hi
+        # --- congruences (strides of loop counters): a phi whose incoming values are constants, values of symbols with a
+        # known congruence plus a constant, or the phi's own previous value plus a constant
+        from math import gcd
+        for s_ in live:
+            if s_ in phi or s_ in redefined:
+                continue
+            ms = [st.mod.get(s_) for st in states]
+            if ms[0] is not None and all(m == ms[0] for m in ms):
+                out.mod[s_] = ms[0]
+        for ps, lins in phi.items():
+            bases, steps, okc = [], [], True
+            for st, l in zip(states, lins):
+                if not l.t:
+                    bases.append((0, l.c))
+                elif len(l.t) == 1 and l.t[0][1] == 1:
+                    q = l.t[0][0]
+                    if q == ps:
+                        steps.append(l.c)
+                    elif q in st.mod:
+                        g_, r_ = st.mod[q]
+                        bases.append((g_, (r_ + l.c) % g_))
+                    elif st.lb(q) == st.ub(q) and st.lb(q) not in (INF, -INF):
+                        bases.append((0, st.lb(q) + l.c))
+                    else:
+                        okc = False
+                else:
+                    okc = False
+            if not okc or not bases:
+                continue
+            G = 0
+            for g_, r_ in bases:
+                G = gcd(G, g_)
+                G = gcd(G, abs(r_ - bases[0][1]))
+            for d_ in steps:
+                G = gcd(G, abs(d_))
+            if G >= 2:
+                out.mod[ps] = (G, bases[0][1] % G)
         # --- templates for phi symbols
         prev = widen_prev or {}
         tmpl = {}
@@ -1308,7 +1352,7 @@ def st_sig(st):
             live.update(l.syms())
     for c in st.cons:
         live.update(c.syms())
-    return (frozenset(st.env.items()), frozenset(st.cons), frozenset((s, st.lb(s), st.ub(s)) for s in live))
+    return (frozenset(st.env.items()), frozenset(st.cons), frozenset((s, st.lb(s), st.ub(s), st.mod.get(s)) for s in live))
 
 
 def states_changed(old, new):
